@@ -60,6 +60,10 @@ func Run(r *core.Run) {
 		wg.Add(1)
 		go func() { defer wg.Done(); eraseBinding(r) }()
 	}
+	if os.Getenv("C06_SKIP_CONVERSE") == "" {
+		wg.Add(1)
+		go func() { defer wg.Done(); converseBinding(r) }()
+	}
 	if os.Getenv("C06_SKIP_RUNTIME") == "" {
 		wg.Add(1)
 		go func() { defer wg.Done(); runtimeBinding(r) }()
